@@ -20,8 +20,8 @@ use super::c03::{self, entry, TyDesc, TypeEntry, Val, ValConv};
 
 /// the same item tokens, once per macro version
 macro_rules! twin {
-    ($($item:item)*) => {
-        pub mod ws {
+    ($ws:ident, $reg:ident; $($item:item)*) => {
+        pub mod $ws {
             #![allow(dead_code)]
             // the derive macro under a name of its own: `twenty_first::prelude::BFieldCodec` also re-exports a macro
             use bfieldcodec_derive_ws::BFieldCodec as DeriveWorkspace;
@@ -29,7 +29,7 @@ macro_rules! twin {
             use twenty_first::prelude::*;
             $( #[derive(DeriveWorkspace)] $item )*
         }
-        pub mod reg {
+        pub mod $reg {
             #![allow(dead_code)]
             use bfieldcodec_derive_reg::BFieldCodec as DeriveRegistry;
             use std::marker::PhantomData;
@@ -42,7 +42,7 @@ macro_rules! twin {
 // ---------------------------------------------------------------------------------------------------------------
 // the corpus: the shape grammar of the macro
 // ---------------------------------------------------------------------------------------------------------------
-twin! {
+twin! { ws, reg;
     // --- unit struct
     pub struct U0;
     // --- named-field structs: static, dynamic first/last/all, empty, ignored fields, library types, nesting
@@ -271,6 +271,11 @@ macro_rules! instances {
     }};
 }
 
+// ---------------------------------------------------------------------------------------------------------------
+// the random part of the corpus: written by `harness/build.rs` from VERIF_SEED (modules `rws` / `rreg`)
+// ---------------------------------------------------------------------------------------------------------------
+include!(concat!(env!("OUT_DIR"), "/c14_random.rs"));
+
 pub struct Twin {
     pub name: &'static str,
     pub ws: TypeEntry,
@@ -279,8 +284,10 @@ pub struct Twin {
 pub fn twins() -> &'static (Vec<Twin>, BTreeMap<&'static str, usize>) {
     static R: OnceLock<(Vec<Twin>, BTreeMap<&'static str, usize>)> = OnceLock::new();
     R.get_or_init(|| {
-        let a = instances!(ws);
-        let b = instances!(reg);
+        let mut a = instances!(ws);
+        let mut b = instances!(reg);
+        a.extend(random_instances!(rws));
+        b.extend(random_instances!(rreg));
         let mut v = vec![];
         let mut idx = BTreeMap::new();
         for ((n1, e1), (n2, e2)) in a.into_iter().zip(b.into_iter()) {
